@@ -46,7 +46,9 @@ def replay_sort(cases_path, out_path):
         pal = (n // 5) % 3
         variant = (n // 15) % 12
         rows = [list(k) + [i, (-1 if i % 3 == 1 else i)] for i, k in enumerate(K)]
-        names = ["s%d" % (i + 1) for i in range(nk)] + ["pos", "Pay Load"]
+        # payload columns under distinct names, one repeated name, no names at all, or the first key's name again:
+        # "cells kept together" and "keeps every column name in order" hold for all of them
+        names = ["s%d" % (i + 1) for i in range(nk)] + [["pos", "Pay Load"], ["pos", "pos"], [None, None], ["s1", "Pay Load"]][(n // 7) % 4]
         S = Side(rows, nk + 2, [tag] * nk + ["int", "str"], [pal] * nk + [0, 0], names)
         if tag == "bool":       # order-preserving on the key domain {1, 2}: 1 -> False, 2 -> True
             for cc in range(nk):
@@ -192,7 +194,7 @@ def group_call(side, kidx, vcol_idx, funs, variant, method, calls, second=None):
     """second: (column index, mode) - aggregate a second column in the same call;
     mode 'stored' (by name / object), 'external' (a vector not stored in the table, same name as the first)"""
     over, _ = key_args(side, kidx, variant % 3)
-    if variant % 2 and not isinstance(over, list):
+    if variant % 2 and not isinstance(over, list) and kidx:
         over = [over]
     vname = side.names[vcol_idx]
     v = vname if variant % 3 == 0 else side.table.cols()[vcol_idx]
@@ -320,6 +322,19 @@ def replay_group(cases_path, out_path):
                 col = col_by_name(res, names[k])
                 if col is None or not views_equal(col, S.cols[k]):
                     F.add("window_keys", c, col, S.cols[k], info)
+            # custom functions see the same groups (None cells included, row order) as in aggregate, and every row
+            # of a group receives that group's value
+            expcalls = [[None if x == -1 else x for x in g] for g in c["calls"]]
+            if sorted(map(repr, calls)) != sorted(map(repr, expcalls)):
+                F.add("window_value", c, {"apply called with": calls}, {"apply called with": expcalls}, info)
+            else:
+                col = col_by_name(res, "calls")
+                if col is not None and len(col) == len(K):
+                    byg = {}
+                    for i, g in enumerate(c["gidx"]):
+                        byg.setdefault(g, set()).add(col[i])
+                    if any(len(vs) != 1 for vs in byg.values()) or len({next(iter(vs)) for vs in byg.values()}) != len(byg):
+                        F.add("window_value", c, {"apply column": col}, "one value per group, the same on all rows of the group", info)
             for f in funs:
                 col = col_by_name(res, "v_" + f)
                 if col is None:
